@@ -68,6 +68,15 @@ def exhaustive_programs():
             items = [("c", "x"), ("c", "y")]
             items.insert(pos, it)
             progs.append(one_caption([{"row": 7, "indent": 4, "tab": 0, "italic_pac": False, "items": items}], False))
+    # rows that fill the screen's 32 columns exactly (alone, and above / below a short row)
+    for doubled in (False, True):
+        full = {"row": 14, "indent": 0, "tab": 0, "italic_pac": False, "items": [("c", ch) for ch in "ABCDEFGHIJKLMNOPQRSTUVWXYZ012345"]}
+        near = {"row": 15, "indent": 0, "tab": 1, "italic_pac": False, "items": [("c", ch) for ch in "abcdefghijklmnopqrstuvwxyz01234"]}
+        short = {"row": 15, "indent": 4, "tab": 0, "italic_pac": False, "items": [("c", "o"), ("c", "k")]}
+        progs.append(one_caption([full], doubled))
+        progs.append(one_caption([full, near], doubled))
+        progs.append(one_caption([full, short], doubled))
+        progs.append(one_caption([dict(full, row=3), dict(short, row=9)], doubled))
     return progs
 
 
@@ -91,6 +100,7 @@ def explore(chk):
         progs.append(sccgen.gen_popon(rng, rich=(i % 4 != 0), max_len=24))
     for i in range(N // 10):
         progs.append(sccgen.italic_rows_program(rng, doubled=bool(i % 2)))
+        progs.append(sccgen.styled_adjacent_rows_program(rng, doubled=bool(i % 2)))
     chk.exhaustive = True
     b = core.Batch()
     ops = [b.add("scc.read", "%d/1" % p["offset"], core.enc(p["text"])) for p in progs]
@@ -123,6 +133,15 @@ def explore(chk):
                         break
                     if gorg is None or abs(gorg[0] - x) > Fraction(1, 10 ** 9) or abs(gorg[1] - y) > Fraction(1, 10 ** 9):
                         ok = False; why = "caption origin is not the (row, column) of its first row mapped linearly into the safe area"; break
+            if ok:
+                # blank cells between two characters of a row are shown as blanks: the words of every line are the screen's
+                rel = [g["words_reliable"] for groups in S for g in groups]
+                ewords = [g["words"] for groups in S for g in groups]
+                gwords = [["".join(ch for ch, _ in l).split() for l in c[2]] for c in I[1]]
+                chk.count("word_boundary_groups", sum(rel))
+                if [w for w, r_ in zip(ewords, rel) if r_] != [w for w, r_ in zip(gwords, rel) if r_]:
+                    ok = False; why = "blank cells between the characters of a row are not kept (word boundaries differ from the CEA-608 screen)"
+                    detail = {"impl_words": str(gwords)[:600], "spec_words": str(ewords)[:600]}
             if ok and any(not sccgen.balanced(c[4]) for c in I[1]):
                 ok = False; why = "italic style nodes are not balanced"
             if not ok:
@@ -132,6 +151,10 @@ def explore(chk):
                                           spec=str(S)[:1500]), why)
         elif wf and I[0] == "err" and I[1] not in ("timingError", "lineLength"):
             chk.property_failure(dict(case, impl=str(I[:3])), "well-formed pop-on stream not read (%s)" % I[1])
+        elif wf and I[0] == "err" and I[1] == "lineLength" and \
+                all(it[0] not in ("mid", "bs") for c in p["caps"] for r in c["rows"] for it in r["items"]):
+            # every row fits the 32 columns (wf) and nothing but characters was sent, so no row can be too long
+            chk.property_failure(dict(case, impl=str(I[:3])), "well-formed pop-on stream whose rows all fit the 32 columns is rejected with the line-length error")
         if out is not None:
             d = sc.compare_impl_model(I, sc.dec_model(out[o]))
             if d:
